@@ -218,22 +218,37 @@ impl Scheduler {
 
     /// Runs every unfinished worker to completion (round robin) and uninstalls the callback.
     pub fn finish(mut self) {
+        // a worker may be blocked on something another (parked) worker holds: never wait for one
+        // worker unboundedly, and pick up workers that moved on after being unblocked
+        let mut idle = 0;
         for _ in 0..100_000 {
+            if self.finished.iter().all(|f| *f) {
+                break;
+            }
             let mut progressed = false;
             for id in 0..self.finished.len() {
-                if self.step(id) {
+                if !self.finished[id] && self.parked[id].is_some() && self.step_or_block(id, 50) != "blocked" {
                     progressed = true;
                 }
             }
-            if !progressed {
-                break;
+            self.drain();
+            if progressed {
+                idle = 0;
+            } else {
+                idle += 1;
+                if idle > 100 {
+                    break; // ~8 s without any progress: give up (the join below would hang)
+                }
             }
         }
         rip_kernel::verif::install(None);
         *SHARED.lock().unwrap() = None;
+        let all_done = self.finished.iter().all(|f| *f);
         for h in self.handles.iter_mut() {
             if let Some(h) = h.take() {
-                let _ = h.join();
+                if all_done {
+                    let _ = h.join();
+                }
             }
         }
     }
